@@ -2,6 +2,8 @@ package main
 
 import (
 	"fmt"
+	"go/ast"
+	"sort"
 	"go/token"
 	"go/types"
 	"strings"
@@ -114,6 +116,51 @@ func (ft *funcTrans) loopEnv(li *loopInfo, pick func(*ssa.Phi) Term) map[string]
 	env := map[string]Term{}
 	for k, v := range ft.env {
 		env[k] = v
+	}
+	// source-level names of values defined in blocks that dominate the header
+	var doms []*ssa.BasicBlock
+	for _, b := range ft.fn.Blocks {
+		if b != li.header && b.Dominates(li.header) {
+			doms = append(doms, b)
+		}
+	}
+	depth := func(b *ssa.BasicBlock) int {
+		n := 0
+		for x := b; x != nil; x = x.Idom() {
+			n++
+		}
+		return n
+	}
+	sort.Slice(doms, func(i, j int) bool { return depth(doms[i]) < depth(doms[j]) })
+	for _, b := range doms {
+		for _, in := range b.Instrs {
+			if phi, isPhi := in.(*ssa.Phi); isPhi {
+				if phi.Comment != "" && phi.Comment != "rangeindex" {
+					if v, ok := ft.vals[phi]; ok && v.L == nil && v.Tup == nil && v.Bad == "" {
+						if _, isParam := ft.env[phi.Comment]; !isParam {
+							env[phi.Comment] = v.T
+						}
+					}
+				}
+				continue
+			}
+			dr, ok := in.(*ssa.DebugRef)
+			if !ok || dr.IsAddr {
+				continue
+			}
+			id, ok := dr.Expr.(*ast.Ident)
+			if !ok {
+				continue
+			}
+			if v, ok := ft.vals[dr.X]; ok && v.L == nil && v.Tup == nil && v.Bad == "" {
+				if _, isParam := ft.env[id.Name]; !isParam {
+					env[id.Name] = v.T
+				}
+			} else if c, ok := dr.X.(*ssa.Const); ok {
+				_ = c
+				env[id.Name] = ft.valOf(dr.X).T
+			}
+		}
 	}
 	// enclosing loops' phis first (outer to inner), then own
 	var chain []*loopInfo
